@@ -2,6 +2,7 @@ CONSTANTS Fams = {"un", "untile", "fil", "filtile", "bin", "bintile"}
           MaxUn = 5
           MaxFil = 4
           MaxBin = 3
+          TileP = 3
           TileQ = 2
           TileM = 3
           Mutant = "none"
